@@ -19,4 +19,5 @@ for m in "$@"; do
     echo "$name: baseline=$base check=$p exit=$rc $(echo "$out" | grep -m1 -A1 VIOLATION | tail -1 | cut -c1-200)"
   done
   git -C /repo checkout -- .
+  rm -rf replay
 done
